@@ -29,6 +29,9 @@ pub enum RowForm {
     /// the first cell(s) with `write_col`, the rest of the row with `write_row` (unusual but
     /// legal: write_row completes the row that write_col opened); `usize` = cells via write_col
     Mixed(usize),
+    /// zero-column resultsets only: `end_row()` called this many times in a loop (rows of a
+    /// zero-column resultset carry nothing, so a shim can end billions of them)
+    EndRowTimes(u64),
 }
 
 #[derive(Clone, Debug, PartialEq, Serialize, Deserialize)]
@@ -330,6 +333,16 @@ impl Shim {
                                 }
                                 RowForm::WriteRowRef => {
                                     logged!(self, cb, "write_row", at, rw.write_row(&row.cells))?;
+                                }
+                                RowForm::EndRowTimes(n) => {
+                                    let mut r = Ok(());
+                                    for _ in 0..n {
+                                        r = rw.end_row();
+                                        if r.is_err() {
+                                            break;
+                                        }
+                                    }
+                                    logged!(self, cb, "end_row", at, r)?;
                                 }
                                 RowForm::Mixed(k) => {
                                     let k = k.min(row.cells.len());
